@@ -148,20 +148,20 @@ package lua
 //@ requires $inv(self) && $sp(self) >= 1
 //@ noraise
 //@ ensures  $inv(self) && $sp(self) == old($sp(self)) - 1 && $cap(self) == old($cap(self))
-//@ ensures  result == old($frame(self, $sp(self) - 1)) && unchanged(result)
+//@ ensures  result == old($frame(self, $sp(self) - 1)) && unchanged(result) && result != nil
 //@ ensures  forall i int :: 0 <= i && i < $sp(self) ==> $frame(self, i) == old($frame(self, i))
 //@ modifies ghost(self)
 
 //@ iface callFrameStack.Last [C02 C05 C12]
 //@ requires $inv(self)
 //@ noraise
-//@ ensures  ($sp(self) == 0 ==> result == nil) && ($sp(self) > 0 ==> result == $frame(self, $sp(self) - 1))
+//@ ensures  ($sp(self) == 0 ==> result == nil) && ($sp(self) > 0 ==> result == $frame(self, $sp(self) - 1) && result != nil)
 //@ modifies nothing
 
 //@ iface callFrameStack.At [C02 C05 C12 C17]
 //@ requires $inv(self) && 0 <= sp && sp < $sp(self)
 //@ noraise
-//@ ensures  result == $frame(self, sp)
+//@ ensures  result == $frame(self, sp) && result != nil
 //@ modifies nothing
 
 //@ iface callFrameStack.Sp [C02 C05 C12]
@@ -180,7 +180,7 @@ package lua
 //@ iface callFrameStack.IsFull [C12]
 //@ requires $inv(self)
 //@ noraise
-//@ ensures  result <==> $sp(self) == $cap(self)
+//@ ensures  (result <==> $sp(self) == $cap(self)) && 0 <= $sp(self) && $sp(self) <= $cap(self)
 //@ modifies nothing
 
 //@ iface callFrameStack.IsEmpty [C12]
@@ -401,3 +401,15 @@ package lua
 //@ ensures  forall k int :: base(ls) <= k && k < old(top(ls)) - nargs - 1 ==> ls.reg.array[k] == old(ls.reg.array[k])
 //@ ensures  forall k int :: base(ls) <= k && k < top(ls) ==> ls.reg.array[k] != nil
 //@ modifies everything
+
+//@ func (*registry).Insert [C01 C02 C10 C12]
+//@ requires Inv_reg(rg) && reg >= 0
+//@ raises when overflow(rg, ite(reg >= rg.top, reg + 1, rg.top + 1))
+//@ ensures  Inv_reg(rg) && arrSameOrFresh(rg) && cap(rg.array) >= old(cap(rg.array))
+//@ ensures  "beyond": old(reg >= rg.top) ==> rg.top == reg + 1 && rg.array[reg] == value && (forall k int :: 0 <= k && k < old(rg.top) ==> rg.array[k] == old(rg.array[k]))
+//@ ensures  "shift": old(reg < rg.top) ==> rg.top == old(rg.top) + 1 && rg.array[reg] == value && (forall k int :: reg < k && k <= old(rg.top) ==> rg.array[k] == old(rg.array[k-1])) && (forall k int :: 0 <= k && k < reg ==> rg.array[k] == old(rg.array[k]))
+//@ modifies rg.array, rg.top, rg.array[*]
+//@ loop 1 invariant Inv_reg(rg) && reg - 1 <= top && top <= old(rg.top) - 1 && reg < old(rg.top) && arrSameOrFresh(rg) && cap(rg.array) >= old(cap(rg.array))
+//@ loop 1 invariant rg.top == ite(top < old(rg.top) - 1, old(rg.top) + 1, old(rg.top)) && (top == old(rg.top) - 1 ==> cap(rg.array) == old(cap(rg.array)))
+//@ loop 1 invariant forall k int :: top + 1 < k && k <= old(rg.top) ==> rg.array[k] == old(rg.array[k-1])
+//@ loop 1 invariant forall k int :: 0 <= k && k <= top ==> rg.array[k] == old(rg.array[k])
